@@ -390,6 +390,10 @@ def _r8(chk: Check) -> None:
         n += 1
         chk.require(not problems, R8, label, fi.where, '; '.join(sorted(set(problems))[:2]) or
                     '%d call(s) of program functions / child evaluations, none inside a converting handler' % seen)
+    # a context manager of the package whose __exit__ returns a truthy value swallows whatever leaves its with-block
+    for q_, wh_, ret_ in common.suppressing_exits(F):
+        chk.bad(R8, q_ + ' returns ' + ret_, wh_, '__exit__ returns %s: when that is truthy the exception leaving the with-block (an error of the '
+                'callee, the ops-limit error) is dropped and the block\'s statement completes as if nothing had happened' % ret_)
     if n == 0:
         raise AnalysisError('anchor vanished: no unit calls a program-supplied function or evaluates a child')
 
